@@ -307,7 +307,11 @@ func internalUnmarshal(v *internalStruct) (any, error) {
 				}
 				field.Set(reflect.New(rft.Type).Elem())
 			} else {
-				field.Set(reflect.ValueOf(value))
+				rv, err := assignableValue(value, field.Type())
+				if err != nil {
+					return nil, fmt.Errorf("unmarshal map fail, field %v: %v", k, err)
+				}
+				field.Set(rv)
 			}
 		}
 
@@ -343,7 +347,11 @@ func internalUnmarshal(v *internalStruct) (any, error) {
 			if value == nil {
 				dResult.SetMapIndex(prkv.Elem(), reflect.New(rvt).Elem())
 			} else {
-				dResult.SetMapIndex(prkv.Elem(), reflect.ValueOf(value))
+				rv, err := assignableValue(value, rvt)
+				if err != nil {
+					return nil, fmt.Errorf("unmarshal map value fail: %v", err)
+				}
+				dResult.SetMapIndex(prkv.Elem(), rv)
 			}
 		}
 		return result.Interface(), nil
@@ -367,10 +375,27 @@ func internalUnmarshal(v *internalStruct) (any, error) {
 			// empty value
 			dResult.Set(reflect.Append(dResult, reflect.New(rvt).Elem()))
 		} else {
-			dResult.Set(reflect.Append(dResult, reflect.ValueOf(value)))
+			rv, err := assignableValue(value, rvt)
+			if err != nil {
+				return nil, fmt.Errorf("unmarshal slice[%s] fail: %v", v.SliceValueType, err)
+			}
+			dResult.Set(reflect.Append(dResult, rv))
 		}
 	}
 	return result.Interface(), nil
+}
+
+// assignableValue returns the decoded value as a reflect.Value if it can be stored in a holder of type to
+// (reflect's Set / SetMapIndex / Append panic otherwise).
+func assignableValue(value any, to reflect.Type) (reflect.Value, error) {
+	if value == nil {
+		return reflect.Zero(to), nil
+	}
+	rv := reflect.ValueOf(value)
+	if !rv.Type().AssignableTo(to) {
+		return reflect.Value{}, fmt.Errorf("decoded value of type %v is not assignable to %v", rv.Type(), to)
+	}
+	return rv, nil
 }
 
 func resolvePointerNum(pointerNum uint32, t reflect.Type) reflect.Type {
